@@ -1191,11 +1191,13 @@ class Processor(object):
             noisy_qobjevo, sys_c_ops = self.get_qobjevo(noisy=noisy)
 
         # add collpase operators into kwargs
+        # (a new list: the list given by the caller must not grow with
+        # every run)
         if "c_ops" in kwargs:
             if isinstance(kwargs["c_ops"], (Qobj, QobjEvo)):
-                kwargs["c_ops"] += [kwargs["c_ops"]] + sys_c_ops
+                kwargs["c_ops"] = [kwargs["c_ops"]] + sys_c_ops
             else:
-                kwargs["c_ops"] += sys_c_ops
+                kwargs["c_ops"] = list(kwargs["c_ops"]) + sys_c_ops
         else:
             kwargs["c_ops"] = sys_c_ops
 
@@ -1211,13 +1213,15 @@ class Processor(object):
         # A better solution is to use the gate, which
         # is however, much harder to implement at this stage, see also
         # https://github.com/qutip/qutip-qip/issues/184.
+        # The options given by the caller are not modified: the step size
+        # computed for this run must not be carried over to the next one.
         if is_qutip5:
-            options = kwargs.get("options", {})
+            options = dict(kwargs.get("options", {}))
             if options.get("max_step", 0.0) == 0.0:
                 options["max_step"] = self._get_max_step()
             options["progress_bar"] = False
         else:
-            options = kwargs.get("options", qutip.Options())
+            options = deepcopy(kwargs.get("options", qutip.Options()))
             if options.max_step == 0.0:
                 options.max_step = self._get_max_step()
             options.progress_bar = False
